@@ -1,5 +1,90 @@
-use serde_json::Value;
+use serde_json::{json, Value};
+use text_utils::data::loading::{BatchLimitType, GenerationStrategy};
+use text_utils::data::preprocessing::{Part, PreprocessingFnConfig};
+use text_utils::data::postprocessing::PostprocessingFnConfig;
+use text_utils::data::task::TrainTaskConfig;
+use text_utils::data::verif_hooks::{train_loader_batches, LoaderArgs};
+use text_utils::data::{PostprocessingConfig, PreprocessingConfig, TrainPipelineConfig};
+use text_utils::tokenization::{ByteGroups, ByteTokenizerConfig, GroupAggregation, SpecialConfig, TokenizeConfig, TokenizerConfig};
 
-pub fn dispatch(op: &str, _req: &Value) -> Result<Value, String> {
-    Err(format!("unknown op {op}"))
+fn pipeline(kind: &str) -> TrainPipelineConfig {
+    let tok = TokenizerConfig {
+        tokenize: TokenizeConfig::Byte(ByteTokenizerConfig {
+            use_graphemes: false,
+            pad_to_multiple_of: None,
+            groups: ByteGroups::Bytes,
+            aggregation: GroupAggregation::Mean,
+        }),
+        special: SpecialConfig::default(),
+    };
+    let pre = match kind {
+        "wscorrupt" => PreprocessingFnConfig::WhitespaceCorruption(Part::Input, 0.4, 0.4, false),
+        _ => PreprocessingFnConfig::None,
+    };
+    TrainPipelineConfig {
+        preprocessing: PreprocessingConfig::Global(pre),
+        task: TrainTaskConfig::WhitespaceCorrection(false, tok),
+        postprocessing: PostprocessingConfig::Global(PostprocessingFnConfig::None),
+    }
+}
+
+fn ous(v: &Value) -> Option<usize> {
+    v.as_u64().map(|x| x as usize).or_else(|| v.as_str().and_then(|s| s.parse::<usize>().ok()))
+}
+
+pub fn dispatch(op: &str, req: &Value) -> Result<Value, String> {
+    match op {
+        "train_loader" => {
+            // files: list of files, each a list of raw jsonl lines
+            let dir = std::path::PathBuf::from(std::env::var("VERIF_SCRATCH").unwrap_or("/var/tmp/verif-scratch".to_string()))
+                .join(format!("loader-{}", std::process::id()));
+            std::fs::create_dir_all(&dir).map_err(|e| e.to_string())?;
+            let mut files = vec![];
+            for (i, f) in req["files"].as_array().ok_or("files")?.iter().enumerate() {
+                let p = dir.join(format!("f{i}.jsonl"));
+                let mut content = String::new();
+                for l in f.as_array().ok_or("file lines")? {
+                    content.push_str(l.as_str().ok_or("line")?);
+                    content.push('\n');
+                }
+                std::fs::write(&p, content).map_err(|e| e.to_string())?;
+                files.push(p.to_string_lossy().to_string());
+            }
+            let args = LoaderArgs {
+                files,
+                pipeline: pipeline(req["pipeline"].as_str().unwrap_or("plain")),
+                strategy: match req["strategy"].as_str().unwrap_or("Sequential") {
+                    "Interleaved" => GenerationStrategy::Interleaved,
+                    "Weighted" => GenerationStrategy::Weighted,
+                    _ => GenerationStrategy::Sequential,
+                },
+                num_threads: req["threads"].as_u64().unwrap_or(0) as u8,
+                buffer_size: ous(&req["buffer"]).unwrap_or(4),
+                batch_limit: ous(&req["batch_limit"]).unwrap_or(2),
+                batch_limit_type: if req["limit_type"].as_str() == Some("PaddedItemSize") {
+                    BatchLimitType::PaddedItemSize
+                } else {
+                    BatchLimitType::BatchSize
+                },
+                max_length: ous(&req["max_length"]).unwrap_or(512),
+                shuffle: req["shuffle"].as_bool().unwrap_or(false),
+                prefetch_factor: ous(&req["prefetch"]).unwrap_or(1),
+                sort: req["sort"].as_bool().unwrap_or(false),
+                seed: req["seed"].as_u64().or_else(|| req["seed"].as_str().and_then(|s| s.parse::<u64>().ok())),
+                skip: ous(&req["skip"]).unwrap_or(0),
+                limit: ous(&req["limit"]),
+                distributed: match (ous(&req["rank"]), ous(&req["world"])) {
+                    (Some(r), Some(w)) => Some((r, w)),
+                    _ => None,
+                },
+                epoch: ous(&req["epoch"]).unwrap_or(0),
+                fast_forward: ous(&req["ff"]).unwrap_or(0),
+            };
+            let r = train_loader_batches(args);
+            let _ = std::fs::remove_dir_all(&dir);
+            let (min_items, batches) = r.map_err(|e| e.to_string())?;
+            Ok(json!({"min_items": min_items, "batches": batches}))
+        }
+        _ => Err(format!("unknown op {op}")),
+    }
 }
